@@ -209,7 +209,7 @@ func (ck *Checker) runReplay(bin, dir, file string, rq replayReq) (string, strin
 	}
 	if line == "" {
 		if ctx.Err() != nil || strings.Contains(string(out), "test timed out") {
-			if kind == "unwind" {
+			if kind == "unwind" || kind == "deadlock" {
 				return "confirmed", "native run did not terminate within 50 s"
 			}
 			return "unconfirmed", "native run timed out"
